@@ -5,7 +5,11 @@ quick   : generated reaction proxies (every sample of bounded random configurati
           proxy (drawn with a restricting sampler along random choice paths), the generated tables,
           sample counts from REAL iteration of the shipped proxy restricted to one core graph at a
           time (the three smallest (mode, core) parts: da_pos completely, the intramolecular core of
-          da_neg) against the Lean count formula per core, RDKit sanitisation of both sides;
+          da_neg) against the Lean count formula per core, 240 samples per mode drawn with next() from
+          REAL DielsAlderProxy objects (X from a second real object in lockstep) judged by the same
+          executable property, RDKit sanitisation of both sides (molecule built with RDKit alone);
+          generated configurations are built along every construction route (c14.construct) and carry
+          bond orders 0-4 on either side;
 thorough: the complete enumeration of DielsAlderProxy(neg_sample=False/True): implementation and
           compiled model compared sample by sample (fingerprints of canonical X, G, H), the
           executable property (balanced, mapped, halves (halvesB), superposition, daCentreOk) on every implementation
@@ -18,7 +22,8 @@ import re
 
 from common import Atom, Case, Run, call_impl, prepare, enc_graph, sx, ImplError
 from c13 import check_model_spec, finalize_model_spec
-from c14 import (canon_graph, fingerprint, enc_config, effective_groups, gen_config, num_exp, shipped, table_cases)
+from c14 import (canon_graph, fingerprint, enc_config, effective_groups, gen_config, num_exp, shipped, table_cases,
+                 ROUTES, construct, spec_of)
 
 PROOFS = ["FGVerif.Proofs.C15", "FGVerif.Proofs.C15General", "FGVerif.Proofs.C15Halves",
           # the Diels-Alder reaction-centre clause as a theorem (general lemmas: C15RcA/B; table obligations on the
@@ -56,7 +61,8 @@ def da_path_sample(groups, core_pgs, core_idx, rng):
 
 
 _ITS_LABEL = re.compile(r"<\d,\d>")
-_PLAIN_BOND = re.compile(r"(?<=[A-Za-z\]\})])[-=#](?=[A-Za-z\[{])")
+_PLAIN_BOND = re.compile(r"(?<=[A-Za-z\]\})])[-=#$](?=[A-Za-z\[{])")
+_ATOM_ATOM = re.compile(r"(?<=[A-Za-z\}])(?=[A-Z{])")
 
 
 def with_breaking_bonds(pattern, rng):
@@ -67,18 +73,34 @@ def with_breaking_bonds(pattern, rng):
 
     def sub(m):
         x = rng.random()
-        if x < 0.35:
-            return "<%d,0>" % rng.randint(1, 3)
-        if x < 0.50:
-            return "<0,%d>" % rng.randint(1, 3)
+        if x < 0.30:
+            return "<%d,0>" % rng.randint(1, 4)
+        if x < 0.45:
+            return "<0,%d>" % rng.randint(1, 4)
+        if x < 0.65:
+            # every order 1..4 (quadruple `$` = 4) on either side
+            a, b = rng.randint(0, 4), rng.randint(0, 4)
+            return "<%d,%d>" % (a, b) if a or b else "<4,4>"
         return m.group(0)
 
     def sub_plain(m):
-        if rng.random() < 0.25:
-            return "<%d,0>" % {"-": 1, "=": 2, "#": 3}[m.group(0)]
+        x = rng.random()
+        if x < 0.25:
+            return "<%d,0>" % {"-": 1, "=": 2, "#": 3, "$": 4}[m.group(0)]
+        if x < 0.35:
+            return "$"                            # scalar 4 (label (4, 4) inside an ITS pattern)
         return m.group(0)
 
-    new = _PLAIN_BOND.sub(sub_plain, _ITS_LABEL.sub(sub, pattern))
+    def sub_implicit(m):
+        # an implicit single bond between two atoms / label nodes becomes an explicit label with orders up to 4
+        x = rng.random()
+        if x < 0.04:
+            return "$"
+        if x < 0.10:
+            return "<%d,%d>" % (rng.randint(1, 4), rng.randint(0, 4))
+        return ""
+
+    new = _ATOM_ATOM.sub(sub_implicit, _PLAIN_BOND.sub(sub_plain, _ITS_LABEL.sub(sub, pattern)))
     if new == pattern:
         return pattern
     try:
@@ -87,6 +109,40 @@ def with_breaking_bonds(pattern, rng):
     except Exception:
         return pattern
     return new
+
+
+N_REAL_OBJECT = 240      # samples per mode taken from the REAL DielsAlderProxy object in quick (all of them are drawn; these are judged)
+
+
+def real_object_indices(seed, which, n_region, n_take=N_REAL_OBJECT):
+    """which samples of the real object are judged: the first 20, the last 20 of the region and random ones (seeded)"""
+    import random
+    rnd = random.Random("%s/%s/real_object" % (seed, which))
+    idx = set(range(min(20, n_region))) | set(range(max(0, n_region - 20), n_region))
+    while len(idx) < min(n_take, n_region):
+        idx.add(rnd.randrange(n_region))
+    return sorted(idx)
+
+
+def real_object_samples(which, indices, history=False):
+    """samples of a REAL `DielsAlderProxy(neg_sample=...)` OBJECT (review 3, L3), drawn with next(obj): [(i, X, G, H)] for the
+    indices asked for.  X - the ITS pattern the proxy expanded for that sample - is what the proxy's own generator
+    yields (`Proxy.get_next`, the method `ReactionProxy.get_next` hands to split_its), taken from a SECOND real object
+    advanced in lockstep; (G, H) = next(first object)."""
+    from fgutils.proxy import Proxy
+    from fgutils.proxy_collection.diels_alder_proxy import DielsAlderProxy
+    if history:
+        DielsAlderProxy(neg_sample=(which != "da_neg"))
+    obj = DielsAlderProxy(neg_sample=(which == "da_neg"))
+    obj_x = DielsAlderProxy(neg_sample=(which == "da_neg"))
+    want = set(indices)
+    out = []
+    for i in range(max(want) + 1 if want else 0):
+        g, h = next(obj)
+        x = Proxy.get_next(obj_x)
+        if i in want:
+            out.append((i, x, g, h))
+    return out
 
 
 def _iterate_core(args):
@@ -114,6 +170,30 @@ def _iterate_core(args):
         return which, ci, None, "%s: %s" % (type(e).__name__, str(e)[:200]), time.time() - t0
 
 
+def _real_object_worker(args):
+    """worker process: a bounded number of samples of the real DielsAlderProxy object of one mode (the region = the
+    expansion of its first core graph, which the proxy builds as a whole before it yields the first sample), as
+    canonical (X, G, H) + RDKit sanitisation of both sides (RDKit alone)"""
+    import time
+    which, indices = args
+    t0 = time.time()
+    try:
+        import rdkit.RDLogger
+        rdkit.RDLogger.DisableLog("rdApp.*")
+        out, san = [], []
+        for i, x, g, h in real_object_samples(which, indices):
+            out.append((i, [canon_graph(x), canon_graph(g), canon_graph(h)]))
+            for side, gg in (("G", g), ("H", h)):
+                f = sanitize_fail(gg)
+                if f:
+                    san.append({"collection": which, "real_object_index": i, "side": side, "error": f})
+        return which, out, san, None, time.time() - t0
+    except StopIteration:
+        return which, None, [], "the real DielsAlderProxy object stopped before sample %d" % max(indices), time.time() - t0
+    except Exception as e:  # noqa: the implementation raised while iterating
+        return which, None, [], "%s: %s" % (type(e).__name__, str(e)[:200]), time.time() - t0
+
+
 def start_real_iteration(tier):
     """quick: the three smallest (mode, core) parts of the two shipped configurations by formula size (that is
     da_pos completely and the intramolecular core of da_neg: 4590 + 5880 + 1360 samples); thorough: all four.
@@ -126,9 +206,48 @@ def start_real_iteration(tier):
             parts.append((num_exp(groups, c), which, ci))
     parts.sort()
     plan = parts if tier == "thorough" else parts[:3]
-    pool = mp.get_context("fork").Pool(len(plan))
+    pool = mp.get_context("fork").Pool(len(plan) + (2 if tier == "quick" else 0))
     jobs = [(which, ci, pool.apply_async(_iterate_core, ((which, ci, ci == 0),))) for _, which, ci in plan]
     return pool, jobs, parts
+
+
+def start_real_objects(pool, parts, seed):
+    """quick: samples of the REAL DielsAlderProxy objects of both modes (thorough enumerates them completely)"""
+    jobs = []
+    for which in ("da_pos", "da_neg"):
+        n_region = next(n for n, w, ci in parts if w == which and ci == 0)      # harness formula: only bounds the region
+        idx = real_object_indices(seed, which, n_region)
+        jobs.append((which, idx, pool.apply_async(_real_object_worker, ((which, idx),))))
+    return jobs
+
+
+def real_object_cases(r, jobs, san_fail, machinery):
+    """cases `check_samples` (da = true: balanced, mapped, halves against X label by label, superposition, daCentreOk,
+    daCycleB) on the samples of the real objects"""
+    cases = []
+    rep = {}
+    for which, idx, job in jobs:
+        try:
+            w, out, san, err, wall = job.get(timeout=900)
+        except Exception as e:  # noqa: worker died / timed out
+            machinery.append("sampling the real DielsAlderProxy object (%s) did not finish: %s" % (which, type(e).__name__))
+            continue
+        rep[which] = {"samples_judged": None if out is None else len(out), "drawn_with_next()": max(idx) + 1, "wall_s": round(wall, 1), "error": err}
+        if err:
+            pth = r.write_replay("failing-input", "real_object_" + which, {
+                "spec_clause": "every sample of the shipped Diels-Alder proxy ... (the real object raised / stopped early while %d samples were drawn)" % (max(idx) + 1),
+                "impl_error": err, "meta": {"collection": which, "real_object_indices": idx}})
+            r.violation_lines.append("VIOLATION property=C15 replay=%s" % pth)
+            continue
+        san_fail.extend(san)
+        for i in range(0, len(out), 40):
+            chunk = out[i:i + 40]
+            cases.append(Case([Atom("C15"), Atom("check_samples"), True, [t for _, t in chunk]], None, compare_model=False,
+                              meta={"collection": which, "real_object_indices": [j for j, _ in chunk]},
+                              tags=("real_object:" + which,), nontrivial_key=("ro", which, i)))
+        r.count("tag:real_object_samples:" + which, len(out))
+    r.notes["real_DielsAlderProxy_object_samples"] = rep
+    return cases
 
 
 def collect_real_iteration(r, pool, jobs, parts, contract, machinery):
@@ -223,26 +342,76 @@ def count_hyp(r, outs):
                 r.notes["general_resuper_failures"] = r.notes.get("general_resuper_failures", 0) + (n_gen - n_resuper)
 
 
+# bond order (as the graphs carry it) -> RDKit bond type; atom symbol -> element symbol: written here, in the harness
+# (review 3, L2: the oracle of "both sides are valence-valid molecules" must not run through fgutils.rdkit.graph_to_mol)
+_RD_BOND = {1: "SINGLE", 2: "DOUBLE", 3: "TRIPLE", 4: "QUADRUPLE", 1.5: "AROMATIC"}
+
+
+def rdkit_direct_mol(g):
+    """the molecule of a reactant / product graph, built with RDKit alone: one atom per node by element symbol
+    (aromatic lower-case symbols name the same element), one bond per edge by the order table above"""
+    from rdkit import Chem
+    m = Chem.RWMol()
+    idx = {}
+    for n, d in g.nodes(data=True):
+        sym = d["symbol"]
+        a = Chem.Atom(sym[:1].upper() + sym[1:])
+        if sym[:1].islower():
+            a.SetIsAromatic(True)
+        idx[n] = m.AddAtom(a)
+    for u, v, d in g.edges(data=True):
+        o = d["bond"]
+        o = float(o)
+        key = 1.5 if o == 1.5 else (int(o) if o == int(o) else o)
+        bt = getattr(Chem.BondType, _RD_BOND[key])
+        m.AddBond(idx[u], idx[v], bt)
+        if key == 1.5:
+            m.GetBondBetweenAtoms(idx[u], idx[v]).SetIsAromatic(True)
+    return m.GetMol()
+
+
 def sanitize_fail(g):
-    from fgutils.rdkit import graph_to_mol
     from rdkit import Chem
     try:
-        m = graph_to_mol(g)
+        m = rdkit_direct_mol(g)
         Chem.SanitizeMol(m)
         return None
     except Exception as e:  # noqa
         return "%s: %s" % (type(e).__name__, str(e)[:120])
 
 
-def impl_reactions(cores, groups, multi):
-    """[(X, G, H)] of a generated reaction proxy: X from Proxy, (G, H) from ReactionProxy"""
+def impl_reactions(cores, groups, multi, route=None, spec=None):
+    """[(X, G, H)] of a generated reaction proxy: X from Proxy, (G, H) from ReactionProxy; with `route` both are
+    built along that construction route (c14.construct: objects in every argument form, ProxyGroup.from_dict /
+    from_dict_single in every documented JSON form, explicit samplers) instead of from the group objects"""
     from fgutils.parse import Parser
     from fgutils.proxy import Proxy, ReactionProxy
-    xs = list(Proxy(list(cores), groups, enable_aam=True, parser=Parser(use_multigraph=multi)))
-    ghs = list(ReactionProxy(list(cores), groups, enable_aam=True, parser=Parser(use_multigraph=multi)))
+    if route is not None and route[0] != "objects":
+        # Proxy.from_dict builds a plain Proxy (also when called as ReactionProxy.from_dict, see notes): the groups of that
+        # route come from ProxyGroup.from_dict and go into the ReactionProxy constructor
+        rt = ["group_from_dict", route[1]] if route[0] == "proxy_from_dict" else route
+        xs = list(construct(spec, cores, rt, True, multi, Proxy)[0]())
+        ghs = list(construct(spec, cores, rt, True, multi, ReactionProxy)[0]())
+    else:
+        xs = list(Proxy(list(cores), groups, enable_aam=True, parser=Parser(use_multigraph=multi)))
+        ghs = list(ReactionProxy(list(cores), groups, enable_aam=True, parser=Parser(use_multigraph=multi)))
     if len(xs) != len(ghs):
         raise RuntimeError("Proxy and ReactionProxy yield different numbers of samples")
     return [(x, g, h) for x, (g, h) in zip(xs, ghs)]
+
+
+def reaction_proxy_from_dict_probe():
+    """evidence only: what `ReactionProxy.from_dict` (inherited static method of Proxy) builds"""
+    from fgutils.proxy import ReactionProxy
+    try:
+        p = ReactionProxy.from_dict({"core": "C<1,2>C{g}", "groups": {"g": ["C", "O"]}})
+        first = next(p)
+        return {"call": "ReactionProxy.from_dict({'core': 'C<1,2>C{g}', 'groups': {'g': ['C', 'O']}})",
+                "type_of_result": type(p).__name__, "type_of_first_sample": type(first).__name__,
+                "reading": "the inherited from_dict instantiates Proxy, not the class it is called on: the samples are ITS graphs, "
+                           "not (reactant, product) pairs; the C15 check therefore feeds ProxyGroup.from_dict(...) into ReactionProxy(...)"}
+    except Exception as e:  # noqa: evidence only
+        return {"error": "%s: %s" % (type(e).__name__, str(e)[:200])}
 
 
 def run(tier, seed):
@@ -258,6 +427,7 @@ def run(tier, seed):
     contract = {}
     machinery = []
     pool, jobs, parts = start_real_iteration(tier)
+    ro_jobs = start_real_objects(pool, parts, seed) if tier == "quick" else []
     cases = [c for c in table_cases(r, contract) if c.meta["table"] != "common"]
     # ---- the documented counts must not depend on which proxies were constructed earlier in the
     # process (history): construct the shipped proxy in both orders and evaluate the HARNESS's count formula on
@@ -286,17 +456,30 @@ def run(tier, seed):
         ({"g": ["O"]}, ["C1<1,2>{g}<2,1>1"]),
         ({"g": ["C<2,0>O", "N"]}, ["C<1,0>C<0,1>{g}<2,1>C"]),            # breaking bonds (k,0) in core and group pattern
         ({"d": ["C<1,0>C"], "p": ["C<0,2>O<3,0>C"]}, ["{d}<2,0>{p}"]),
+        # review 3: bond order 4 (quadruple `$`) on the reactant side, the product side and both
+        ({"g": ["C$C", "N"]}, ["C<3,4>C<4,3>C{g}"]),
+        ({"g": ["C<0,4>C", "C<4,0>O"]}, ["C<4,4>C$C<1,4>{g}<4,1>C"]),
+        # review 3 (M5): graphs of a group that differ only in the anchor / listed twice
+        ({"g": [["C<1,2>O", [0]], ["C<1,2>O", [1]], ["C<1,2>O", [0]]]}, ["C<2,1>C{g}"]),
     ]
+    plan = [(ci, rt) for ci in range(len(corpus)) for rt in range(len(ROUTES)) if ROUTES[rt] != "proxy_from_dict"]
     n_cfg = 90 if tier == "quick" else 1200
     n_react = 0
-    for k in range(n_cfg + len(corpus)):
+    for k in range(n_cfg + len(plan)):
         if len(cases) >= 300:
             count_hyp(r, r.evaluate(cases))
             cases = []
         multi = True
-        if k < len(corpus):
-            spec, cores = corpus[k]
-            groups = {n: ProxyGroup(n, [ProxyGraph(p, anchor=[0]) for p in ps]) for n, ps in spec.items()}
+        # construction route of this configuration (c14.construct): a fixed share per route
+        route = [ROUTES[(plan[k][1] if k < len(plan) else k) % len(ROUTES)], rng.randrange(1 << 30)]
+        if route[0] == "proxy_from_dict":
+            route[0] = "group_from_dict"           # Proxy.from_dict builds a plain Proxy; its groups part is ProxyGroup.from_dict
+        if route[0] == "objects":
+            route = None
+        if k < len(plan):
+            spec, cores = corpus[plan[k][0]]
+            groups = {n: ProxyGroup(n, [ProxyGraph(p, anchor=[0]) if isinstance(p, str) else ProxyGraph(p[0], anchor=list(p[1])) for p in ps])
+                      for n, ps in spec.items()}
         else:
             for _ in range(20):
                 groups, core, flags = gen_config(rng, allow_errors=False)
@@ -316,8 +499,9 @@ def run(tier, seed):
             continue
         if any(gg.has_edge(n, n) for gg in pats for n, d in gg.nodes(data=True) if d["is_labeled"]):
             continue
-        res = call_impl(impl_reactions, cores, groups, multi)
-        meta = {"groups": {n: [[pg.pattern, list(pg.anchor)] for pg in g.graphs] for n, g in groups.items()}, "cores": cores, "multi": multi}
+        spec_w = spec_of(groups)
+        res = call_impl(impl_reactions, cores, groups, multi, route, spec_w)
+        meta = {"groups": spec_w, "cores": cores, "multi": multi, "route": route}
         # the whole configuration against the MODEL's expansion: the patterns the proxy expands are the model's (ids 0..n-1,
         # nothing lost or merged on the way), and every (X, G, H) passes the sample check
         try:
@@ -328,13 +512,16 @@ def run(tier, seed):
         impl_all = res if isinstance(res, ImplError) else sorted(([canon_graph(x), canon_graph(g), canon_graph(h)] for x, g, h in res), key=sx)
         cases.append(Case([Atom("C15"), Atom("reactions"), cfg_w, cores_w], impl_all, meta=dict(meta, whole_configuration=True),
                           tags=("reactions(whole configuration vs model expansion)", "multi" if multi else "simple",
-                                "impl_raised" if isinstance(res, ImplError) else "impl_ok"),
+                                "impl_raised" if isinstance(res, ImplError) else "impl_ok", "route=%s" % (route[0] if route else "objects")),
                           nontrivial_key=("R", sx(cfg_w), tuple(cores))))
         if isinstance(res, ImplError):
             continue
         for i, (x, g, h) in enumerate(res):
             n_react += 1
             big = x.number_of_nodes() >= 41
+            o4 = [b for _, _, d in x.edges(data=True) for b in (d.get("bond") if isinstance(d.get("bond"), (tuple, list)) else [d.get("bond")])]
+            if 4 in o4:
+                r.count("generated:samples_with_bond_order_4")
             cases.append(Case([Atom("C15"), Atom("reaction"), False, enc_graph(x)], [canon_graph(g), canon_graph(h)],
                               meta=dict(meta, sample=i), tags=("reaction", "generated", "atoms>=41" if big else "atoms<41",
                                                                "multi" if multi else "simple"),
@@ -365,6 +552,10 @@ def run(tier, seed):
         r.count("tag:da_samples:" + which, len(batch))
     count_hyp(r, r.evaluate(cases))
     r.notes["generated_reaction_samples"] = n_react
+    # ---- samples of the REAL DielsAlderProxy objects (quick; drawn in worker processes) ---------------------------
+    if ro_jobs:
+        r.evaluate(real_object_cases(r, ro_jobs, san_fail, machinery))
+    r.notes["ReactionProxy.from_dict"] = reaction_proxy_from_dict_probe()
     # ---- counts from REAL iteration of the shipped proxy, core graph by core graph -----------------
     check_model_spec(r, collect_real_iteration(r, pool, jobs, parts, contract, machinery))
     # ---- thorough: the complete enumeration, both modes ---------------------------------------
@@ -398,7 +589,9 @@ def run(tier, seed):
         "(graphs on the same nodes with aam = id+1) and with the general get_its of Model/C09.lean (validated against fgutils.its by "
         "the C09/C10 checks) through the adapter of Model/C15General.lean; C15.superposition_general / getIts_small_eq_general prove "
         "that the two agree on every sample in the decidable domain generalOk",
-        "RDKit (RWMol, sanitisation incl. kekulisation) is not modelled: 'valence-valid molecules' is checked by the harness only; "
+        "RDKit (RWMol, sanitisation incl. kekulisation) is not modelled: 'valence-valid molecules' is checked by the harness only, on a "
+        "molecule the harness builds with RDKit ALONE (c15.rdkit_direct_mol: atoms by element symbol, bonds by an order table written in "
+        "the harness; fgutils.rdkit.graph_to_mol is not on the oracle's path - review 3, L2); "
         "the model-side explicit-valence bound uses a fixed table of maximal valences (Model/C15.lean: maxValence)",
         "the SHAPE part of the DA-centre clause (one six-membered carbon cycle, label multiset, no other changing bond) is a theorem about "
         "the model for every sample of the regenerated configuration in both modes (C15.da_rc_shape_thm / da_rc_shape_all; general lemmas "
@@ -409,6 +602,16 @@ def run(tier, seed):
         "inherits the bonds of the label node it replaces through chains of single-label patterns, the empty pattern H drops bonds, and the "
         "Kekule-style valence count is not additive",
         "random DA samples are drawn with a restricting sampler (one graph per call); the complete enumeration uses the shipped non-restricting samplers",
+        "REAL OBJECTS in quick (review 3, L3): %d samples per mode are taken from a real DielsAlderProxy(neg_sample=False/True) object with "
+        "next(obj) (the first 20, the last 20 and seeded random ones of the expansion of its first core graph - 4590 / 1360 samples are drawn), "
+        "X = what a second real object's own generator yields in lockstep (Proxy.get_next); judged by the same executable property as the "
+        "path samples (check_samples, da = true) and sanitised with RDKit alone (coverage.notes.real_DielsAlderProxy_object_samples)" % N_REAL_OBJECT,
+        "CONSTRUCTION ROUTES (review 3, M5): a fixed share of the generated reaction proxies (and every corpus configuration along every "
+        "route) is built through c14.construct - objects in every argument form, ProxyGroup.from_dict / from_dict_single in every documented "
+        "JSON form, explicit samplers - for Proxy and ReactionProxy alike (tags route=*); ReactionProxy.from_dict is the inherited "
+        "Proxy.from_dict and builds a plain Proxy (coverage.notes['ReactionProxy.from_dict']), so the dict route feeds ProxyGroup.from_dict "
+        "into ReactionProxy(...).  Generated patterns carry bond orders 0-4 on either side (quadruple `$`, <k,4>, <4,k>; "
+        "input_distribution generated:samples_with_bond_order_4)",
         "SAMPLE COUNTS: coverage.notes.sample_counts states per mode and core graph which counts come from REAL iteration of the "
         "shipped proxy (a ReactionProxy built from that single core ProxyGraph, unique core sampler, and the proxy's own effective groups, "
         "iterated until it stops, in a worker process; the other mode's proxy constructed first for core 0 = history) and which only from "
@@ -424,8 +627,8 @@ def run(tier, seed):
     rc = r.finish(
         level="proof",
         rule="every sample of bounded random reaction-proxy configurations (each configuration also as a whole against the model's expansion; see C14's generator; ITS and scalar patterns, simple and multigraph "
-             "parser, samples with >= 41 atoms); DielsAlderProxy both modes: %d random choice paths per mode (quick) / complete enumeration "
-             "(thorough); non-trivial = sample whose expanded pattern carries at least one ITS pair label" % n_paths,
+             "parser, samples with >= 41 atoms, bond orders 0-4 on both sides, every construction route); DielsAlderProxy both modes: %d random choice paths per mode "
+             "+ 240 samples of the real object (quick) / complete enumeration (thorough); non-trivial = sample whose expanded pattern carries at least one ITS pair label" % n_paths,
         checker_cmd="cd lean && lake build FGVerif.Proofs.C15 FGVerif.Proofs.C15Rc && lake env lean FGVerif/Audit/C15.lean",
         explanation="theorems C15.halvesB_sound / C15.halvesB_reaction (direct check of the halves, Proofs/C15Halves.lean), "
                     "C15.balanced_mapped / C15.superposition / C15.superposition_general (for the general C09/C10 models of "
@@ -459,6 +662,17 @@ def replay(path):
         impl = ImplError(RuntimeError(errs[0])) if errs else [None if x is None else x[2] for x in res]
         case = Case([Atom("C15"), Atom("core_counts"), Atom(which), enc_config(groups, True),
                      [enc_graph(Parser(use_multigraph=True).parse(c)) for c in cores], list(meta["iterated"])], impl, meta=meta)
+    elif "real_object_indices" in meta:
+        which = meta["collection"]
+        idx = [int(i) for i in meta["real_object_indices"]]
+        print("re-drawing %d samples with next() from a real DielsAlderProxy(neg_sample=%s) object" % (max(idx) + 1, which == "da_neg"))
+        try:
+            impl = [[canon_graph(x), canon_graph(g), canon_graph(h)] for _, x, g, h in real_object_samples(which, idx)]
+        except Exception as e:  # noqa
+            print("replay %s: the implementation raises %s" % (path, type(e).__name__))
+            print("VIOLATION property=C15 replay=%s" % path)
+            return 1
+        case = Case([Atom("C15"), Atom("check_samples"), True, impl], None, compare_model=False, meta=meta)
     elif "paths" in meta:
         which = meta["collection"]
         groups, cores = shipped(which)
@@ -473,12 +687,12 @@ def replay(path):
                      True, meta["paths"]], impl, meta=meta)
     elif "groups" in meta and meta.get("whole_configuration"):
         groups = groups_from_meta(meta)
-        res = call_impl(impl_reactions, meta["cores"], groups, meta["multi"])
+        res = call_impl(impl_reactions, meta["cores"], groups, meta["multi"], meta.get("route"), meta["groups"])
         impl_all = res if isinstance(res, ImplError) else sorted(([canon_graph(x), canon_graph(g), canon_graph(h)] for x, g, h in res), key=sx)
         case = Case([Atom("C15"), Atom("reactions"), enc_config(groups, meta["multi"]),
                      [enc_graph(Parser(use_multigraph=meta["multi"]).parse(c)) for c in meta["cores"]]], impl_all, meta=meta)
     elif "groups" in meta and "sample" in meta:
-        res = call_impl(impl_reactions, meta["cores"], groups_from_meta(meta), meta["multi"])
+        res = call_impl(impl_reactions, meta["cores"], groups_from_meta(meta), meta["multi"], meta.get("route"), meta["groups"])
         if isinstance(res, ImplError):
             print("replay %s: the implementation raises %s" % (path, res.text))
             print("VIOLATION property=C15 replay=%s" % path)
